@@ -470,6 +470,23 @@ def oracle_empty():
             got = D2.suppfunc(np.array(yv))
             if not abs(got - want) <= 1e-4:
                 return 'user-specified SigDomain {e^x0 + e^x1 <= 2}: suppfunc(%s) = %r, expected %r' % (yv, got, want)
+        # a box that is not centred at the origin, written with the abs atom (its epigraph rows carry the offset of the argument with BOTH signs)
+        from sageopt.coniclifts.operators.abs import abs as cl_abs_
+        xb = cl.Variable(shape=(2,), name='absbox_x')
+        cen, rad = np.array([1.0, -0.5]), np.array([2.0, 1.0])
+        D3 = SigDomain(2, coniclifts_cons=[cl_abs_(xb - cen) <= rad],
+                       gts=[lambda z: 2.0 - abs(z[0] - 1.0), lambda z: 1.0 - abs(z[1] + 0.5)], eqs=[])
+        for pt, inside in (([2.5, 0.25], True), ([1.0, -0.5], True), ([-0.5, -1.25], True), ([3.5, 0.0], False), ([0.0, 0.75], False), ([-1.5, 0.0], False)):
+            mem = bool(D3.check_membership(np.array(pt), 1e-8))
+            con = feasible_with_x_fixed(D3, pt)
+            if mem != inside or (con is not None and con != inside):
+                return ('user-specified SigDomain {|x0 - 1| <= 2, |x1 + 0.5| <= 1} (abs atom): point %s is %s the set, check_membership says %s, '
+                        'the conic data say %s' % (pt, 'in' if inside else 'outside', mem, con))
+        for yv in ([1.0, 0.0], [-1.0, 0.0], [0.0, -1.0], [1.0, 2.0]):
+            want = float(np.array(yv) @ cen + np.abs(yv) @ rad)
+            got = D3.suppfunc(np.array(yv))
+            if not abs(got - want) <= 1e-4:
+                return 'user-specified SigDomain {|x0 - 1| <= 2, |x1 + 0.5| <= 1} (abs atom): suppfunc(%s) = %r, expected %r' % (yv, got, want)
         # a component of x that no constraint mentions: X is unbounded along it (fixed 0520ccb; kept as a directed case)
         y2 = so.standard_sig_monomials(2)
         X2 = ss.infer_domain(y2[0], [1 - y2[0]], [])
